@@ -40,6 +40,12 @@ pub trait Prop: Sync {
     fn workers(&self) -> usize {
         16
     }
+    /// Whether the death of a child process is a violation of this property
+    /// (false where totality is another property's subject: the crash is
+    /// then only counted)
+    fn crash_is_violation(&self) -> bool {
+        true
+    }
     fn run_case(&self, case: u64, rng: &mut Rng, st: &mut Stats, tier: Tier);
     /// Optional extra stage run once in the parent after the case loop
     /// (sanitizer jobs etc.)
@@ -336,6 +342,12 @@ fn run_children(
                                 .unwrap_or("")
                                 .trim()
                                 .to_string();
+                            if !prop.crash_is_violation() {
+                                st.inc("child_crashes_left_to_C11");
+                                skip.push(c);
+                                start = next;
+                                continue;
+                            }
                             st.violation(
                                 c,
                                 format!("crash:{how}:{class}"),
